@@ -143,11 +143,12 @@ class LeanPrinter(ast.NodeVisitor):
                 del self.bound[var]
 
     def num(self, node, want):
-        s = self.p(node)
         k = self.kind(node)
         if want == "real" and k == "int":
-            return "((%s : ℤ) : ℝ)" % s
-        return s
+            if isinstance(node, ast.Constant) and isinstance(node.value, int):
+                return "(%d : ℝ)" % node.value
+            return "((%s : ℤ) : ℝ)" % self.p(node)
+        return self.p(node)
 
     def p_Constant(self, n):
         if isinstance(n.value, bool):
